@@ -1647,7 +1647,7 @@ EnsureSizeAux(uint32 size, bool setNumItems, uint32 extraPreallocs, ItemType ** 
             newQueue[i] = QQ_PlunderItem(GetItemAtUnchecked(i));  // we know that (numItemsToKeep <= newQLen)
       }
 
-      if (setNumItems) _itemCount = size;
+      if ((setNumItems)&&(size < _itemCount)) _itemCount = size;  // (growing the item-count is handled below)
       _headIndex = 0;
       _tailIndex = _itemCount-1;
 
@@ -1672,8 +1672,16 @@ EnsureSizeAux(uint32 size, bool setNumItems, uint32 extraPreallocs, ItemType ** 
       if (size > _itemCount)
       {
          // We can do this quickly because the "new" items are already initialized properly
+         const uint32 oldItemCount = _itemCount;
          _tailIndex = PrevIndex(InternalizeIndex(size));
          _itemCount = size;
+
+         // ... except when we skip the per-item clears (trivial item types), in which case the newly exposed slots may hold stale or uninitialized values
+         if (IsPerItemClearNecessary() == false)
+         {
+            const ItemType & defaultItem = GetDefaultItem();
+            for (uint32 i=oldItemCount; i<size; i++) (*this)[i] = defaultItem;
+         }
       }
       else (void) RemoveTailMulti(_itemCount-size);
    }
